@@ -27,363 +27,139 @@ const (
 )
 
 type gen struct {
-	pm, ipt, save *fg.Parsed
-	consts        map[string]string // resolved string constants usable inside string(X)
+	pm, ipt, save, srv *fg.Parsed
+	consts             map[string]string // package-level string constants of portmapping/iptables.go
 }
 
-// ---- pieces ---------------------------------------------------------------------------------
+// ---- the rule templates ----------------------------------------------------------------------------------
 
-type piece struct {
-	kind string // lit | podName | hostPort | containerPort | podIP | hostIP | proto | chain
-	s    string
-}
-
-func (p piece) lean() string {
-	if p.kind == "lit" {
-		return "Piece.lit " + fg.LeanStr(p.s)
-	}
-	return "Piece." + p.kind
-}
-
-type tok []piece
-
-func leanTok(t tok) string {
-	var xs []string
-	for _, p := range t {
-		xs = append(xs, p.lean())
-	}
-	return "[" + strings.Join(xs, ", ") + "]"
-}
-
-func leanToks(ts []tok) string {
-	var xs []string
-	for _, t := range ts {
-		xs = append(xs, leanTok(t))
-	}
-	return "[" + strings.Join(xs, ",\n   ") + "]"
-}
-
-// portField maps `<portvar>.<Field>` to a piece kind.
-func portField(name string) (string, bool) {
-	switch name {
-	case "PodName":
-		return "podName", true
-	case "HostPort":
-		return "hostPort", true
-	case "ContainerPort":
-		return "containerPort", true
-	case "PodIP":
-		return "podIP", true
-	case "HostIP":
-		return "hostIP", true
-	}
-	return "", false
-}
-
-// tokOf translates one element of an args list / one writeLine word.
-func (g *gen) tokOf(e ast.Expr, portVar string) (tok, error) {
-	switch x := e.(type) {
-	case *ast.BasicLit:
-		if x.Kind == token.STRING {
-			s, err := strconv.Unquote(x.Value)
-			if err != nil {
-				return nil, err
-			}
-			return tok{{"lit", s}}, nil
-		}
-	case *ast.Ident:
-		if x.Name == "protocol" {
-			return tok{{"proto", ""}}, nil
-		}
-	case *ast.SelectorExpr:
-		if id, ok := x.X.(*ast.Ident); ok && id.Name == portVar {
-			if k, ok := portField(x.Sel.Name); ok && (k == "podIP" || k == "hostIP" || k == "podName") {
-				return tok{{k, ""}}, nil
-			}
-		}
-	case *ast.CallExpr:
-		fn := g.pm.Src(x.Fun)
-		if fn == "string" && len(x.Args) == 1 {
-			if id, ok := x.Args[0].(*ast.Ident); ok {
-				if id.Name == "hostportChain" {
-					return tok{{"chain", ""}}, nil
-				}
-				if v, ok := g.consts[id.Name]; ok {
-					return tok{{"lit", v}}, nil
-				}
-			}
-		}
-		if fn == "fmt.Sprintf" && len(x.Args) >= 1 {
-			bl, ok := x.Args[0].(*ast.BasicLit)
-			if !ok || bl.Kind != token.STRING {
-				break
-			}
-			f, err := strconv.Unquote(bl.Value)
-			if err != nil {
-				return nil, err
-			}
-			return g.sprintf(f, x.Args[1:], portVar)
-		}
-	}
-	return nil, fmt.Errorf("%s: cannot translate rule word `%s`", srcPM, g.pm.Src(e))
-}
-
-// sprintf translates a format with %s / %d verbs only.
-func (g *gen) sprintf(f string, args []ast.Expr, portVar string) (tok, error) {
-	var out tok
-	lit := ""
-	ai := 0
-	for i := 0; i < len(f); i++ {
-		if f[i] != '%' {
-			lit += string(f[i])
-			continue
-		}
-		if i+1 >= len(f) {
-			return nil, fmt.Errorf("dangling %% in format %q", f)
-		}
-		v := f[i+1]
-		i++
-		if v == '%' {
-			lit += "%"
-			continue
-		}
-		if v != 's' && v != 'd' {
-			return nil, fmt.Errorf("format %q: verb %%%c not supported", f, v)
-		}
-		if ai >= len(args) {
-			return nil, fmt.Errorf("format %q: missing argument", f)
-		}
-		sel, ok := args[ai].(*ast.SelectorExpr)
-		ai++
-		if !ok {
-			return nil, fmt.Errorf("format %q: argument `%s` is not a port field", f, g.pm.Src(args[ai-1]))
-		}
-		id, ok := sel.X.(*ast.Ident)
-		k, ok2 := portField(sel.Sel.Name)
-		if !ok || !ok2 || id.Name != portVar {
-			return nil, fmt.Errorf("format %q: argument `%s` is not a port field", f, g.pm.Src(sel))
-		}
-		isNum := k == "hostPort" || k == "containerPort"
-		if (v == 'd') != isNum {
-			return nil, fmt.Errorf("format %q: verb %%%c does not fit field %s", f, v, sel.Sel.Name)
-		}
-		if lit != "" {
-			out = append(out, piece{"lit", lit})
-			lit = ""
-		}
-		out = append(out, piece{k, ""})
-	}
-	if ai != len(args) {
-		return nil, fmt.Errorf("format %q: %d surplus arguments", f, len(args)-ai)
-	}
-	if lit != "" {
-		out = append(out, piece{"lit", lit})
-	}
-	return out, nil
-}
-
-func (g *gen) toks(es []ast.Expr, portVar string) ([]tok, error) {
-	var out []tok
-	for _, e := range es {
-		t, err := g.tokOf(e, portVar)
-		if err != nil {
-			return nil, err
-		}
-		out = append(out, t)
-	}
-	return out, nil
-}
-
-// stringSliceLit returns the elements of `[]string{...}`.
-func stringSliceLit(e ast.Expr) ([]ast.Expr, bool) {
-	cl, ok := e.(*ast.CompositeLit)
-	if !ok {
-		return nil, false
-	}
-	at, ok := cl.Type.(*ast.ArrayType)
-	if !ok || at.Len != nil {
-		return nil, false
-	}
-	if id, ok := at.Elt.(*ast.Ident); !ok || id.Name != "string" {
-		return nil, false
-	}
-	return cl.Elts, true
-}
-
-// assignArgsLit matches `args = []string{...}` or `args := []string{...}`.
-func assignArgsLit(s ast.Stmt) ([]ast.Expr, bool) {
-	as, ok := s.(*ast.AssignStmt)
-	if !ok || len(as.Lhs) != 1 || len(as.Rhs) != 1 {
-		return nil, false
-	}
-	if id, ok := as.Lhs[0].(*ast.Ident); !ok || id.Name != "args" {
-		return nil, false
-	}
-	return stringSliceLit(as.Rhs[0])
-}
-
-// assignArgsAppend matches `args = append(args, w1, w2, ...)`.
-func assignArgsAppend(s ast.Stmt) ([]ast.Expr, bool) {
-	as, ok := s.(*ast.AssignStmt)
-	if !ok || len(as.Lhs) != 1 || len(as.Rhs) != 1 || as.Tok != token.ASSIGN {
-		return nil, false
-	}
-	if id, ok := as.Lhs[0].(*ast.Ident); !ok || id.Name != "args" {
-		return nil, false
-	}
-	c, ok := as.Rhs[0].(*ast.CallExpr)
-	if !ok || len(c.Args) < 2 {
-		return nil, false
-	}
-	if id, ok := c.Fun.(*ast.Ident); !ok || id.Name != "append" {
-		return nil, false
-	}
-	if id, ok := c.Args[0].(*ast.Ident); !ok || id.Name != "args" {
-		return nil, false
-	}
-	return c.Args[1:], true
-}
-
-// ---- the individual extractions ---------------------------------------------------------------
-
-// hostPortChainRules: five template fragments.
-func (g *gen) hostPortChainRules() (headRestore, headCmd, mid, hostIP, jump []tok, err error) {
+// hostPortChainRules(port, protocol, chain, iptablesRestore): executed for the four combinations of
+// (restore form, HostIP set) and decomposed into head(restore) / head(cmd) / mid / hostIP / tail.
+func (g *gen) hostPortChainRules() (headRestore, headCmd, mid, hostIP, tail []tok, err error) {
 	fd, e := g.pm.Fn("", "hostPortChainRules")
 	if e != nil {
 		err = e
 		return
 	}
-	bad := func(why string) error {
-		return fmt.Errorf("%s: hostPortChainRules no longer has the expected shape (%s)", srcPM, why)
-	}
-	b := fd.Body.List
-	if len(b) != 6 {
-		err = bad(fmt.Sprintf("%d statements, want 6", len(b)))
+	ps := paramNames(fd)
+	if len(ps) != 4 {
+		err = fmt.Errorf("%s: hostPortChainRules no longer has the parameters (port, protocol, chain, restore)", srcPM)
 		return
 	}
-	if fd.Type.Params.NumFields() != 4 {
-		err = bad("parameter list")
+	r := roles{port: ps[0], proto: ps[1], chain: ps[2], restore: ps[3]}
+	ev := func(restore, hostip bool) ([]tok, error) {
+		x, err := runTemplate(g.pm, g.consts, fd, r, restore, hostip)
+		if err != nil {
+			return nil, err
+		}
+		if !x.done || len(x.lines) != 0 {
+			return nil, fmt.Errorf("%s: hostPortChainRules does not just return its argument list", srcPM)
+		}
+		return x.ret, nil
+	}
+	cmdNo, e1 := ev(false, false)
+	cmdIP, e2 := ev(false, true)
+	resNo, e3 := ev(true, false)
+	resIP, e4 := ev(true, true)
+	for _, e := range []error{e1, e2, e3, e4} {
+		if e != nil {
+			err = e
+			return
+		}
+	}
+	pre := commonPrefix(cmdNo, cmdIP)
+	tl := commonSuffix(cmdNo, cmdIP)
+	if tl > len(cmdNo)-pre {
+		tl = len(cmdNo) - pre
+	}
+	tail = cmdNo[len(cmdNo)-tl:]
+	hostIP = cmdIP[pre : len(cmdIP)-tl]
+	body := cmdNo[:len(cmdNo)-tl]
+	if len(resNo) < tl || !toksEq(resNo[len(resNo)-tl:], tail) {
+		err = fmt.Errorf("%s: hostPortChainRules: restore and command form end differently", srcPM)
 		return
 	}
-	pv := fd.Type.Params.List[0].Names[0].Name
-	if g.pm.Src(b[0]) != "var args []string" {
-		err = bad("statement 1 is not `var args []string`")
-		return
+	resBody := resNo[:len(resNo)-tl]
+	ml := commonSuffix(body, resBody)
+	mid = body[len(body)-ml:]
+	headCmd = body[:len(body)-ml]
+	headRestore = resBody[:len(resBody)-ml]
+	cat := func(xs ...[]tok) []tok {
+		var out []tok
+		for _, x := range xs {
+			out = append(out, x...)
+		}
+		return out
 	}
-	ifs, ok := b[1].(*ast.IfStmt)
-	if !ok || g.pm.Src(ifs.Cond) != "iptablesRestore" || ifs.Else == nil || len(ifs.Body.List) != 1 {
-		err = bad("statement 2 is not `if iptablesRestore {args = …} else {args = …}`")
-		return
-	}
-	eb, ok := ifs.Else.(*ast.BlockStmt)
-	if !ok || len(eb.List) != 1 {
-		err = bad("else branch")
-		return
-	}
-	e1, ok1 := assignArgsLit(ifs.Body.List[0])
-	e2, ok2 := assignArgsLit(eb.List[0])
-	if !ok1 || !ok2 {
-		err = bad("branches do not assign a []string literal to args")
-		return
-	}
-	if headRestore, err = g.toks(e1, pv); err != nil {
-		return
-	}
-	if headCmd, err = g.toks(e2, pv); err != nil {
-		return
-	}
-	e3, ok := assignArgsAppend(b[2])
-	if !ok {
-		err = bad("statement 3 is not `args = append(args, …)`")
-		return
-	}
-	if mid, err = g.toks(e3, pv); err != nil {
-		return
-	}
-	if2, ok := b[3].(*ast.IfStmt)
-	if !ok || g.pm.Src(if2.Cond) != pv+`.HostIP != ""` || if2.Else != nil || len(if2.Body.List) != 1 {
-		err = bad("statement 4 is not `if containerPort.HostIP != \"\" {args = append(…)}`")
-		return
-	}
-	e4, ok := assignArgsAppend(if2.Body.List[0])
-	if !ok {
-		err = bad("host-ip branch")
-		return
-	}
-	if hostIP, err = g.toks(e4, pv); err != nil {
-		return
-	}
-	e5, ok := assignArgsAppend(b[4])
-	if !ok {
-		err = bad("statement 5 is not `args = append(args, \"-j\", …)`")
-		return
-	}
-	if jump, err = g.toks(e5, pv); err != nil {
-		return
-	}
-	if g.pm.Src(b[5]) != "return args" {
-		err = bad("last statement is not `return args`")
+	if !toksEq(cat(headCmd, mid, tail), cmdNo) || !toksEq(cat(headCmd, mid, hostIP, tail), cmdIP) ||
+		!toksEq(cat(headRestore, mid, tail), resNo) || !toksEq(cat(headRestore, mid, hostIP, tail), resIP) {
+		err = fmt.Errorf("%s: hostPortChainRules is no longer head(restore|cmd) ++ middle ++ [host-ip words] ++ tail", srcPM)
 	}
 	return
 }
 
-// containerPortChainRules: two rules, each `args (:)= []string{…}; writeLine(natRules, args...)`.
+// containerPortChainRules(port, protocol, chain, rulesBuffer): exactly two lines written to the rules buffer.
 func (g *gen) containerPortChainRules() (r1, r2 []tok, err error) {
 	fd, e := g.pm.Fn("", "containerPortChainRules")
 	if e != nil {
 		return nil, nil, e
 	}
-	bad := func(why string) error {
-		return fmt.Errorf("%s: containerPortChainRules no longer has the expected shape (%s)", srcPM, why)
+	ps := paramNames(fd)
+	if len(ps) != 4 {
+		return nil, nil, fmt.Errorf("%s: containerPortChainRules no longer has the parameters (port, protocol, chain, buffer)", srcPM)
 	}
-	b := fd.Body.List
-	if len(b) != 4 {
-		return nil, nil, bad(fmt.Sprintf("%d statements, want 4", len(b)))
-	}
-	pv := fd.Type.Params.List[0].Names[0].Name
-	for i := 0; i < 2; i++ {
-		es, ok := assignArgsLit(b[2*i])
-		if !ok {
-			return nil, nil, bad("args literal")
-		}
-		if g.pm.Src(b[2*i+1]) != "writeLine(natRules, args...)" {
-			return nil, nil, bad("writeLine(natRules, args...) expected")
-		}
-		ts, err := g.toks(es, pv)
+	r := roles{port: ps[0], proto: ps[1], chain: ps[2]}
+	var ref *run
+	for _, hip := range []bool{false, true} {
+		x, err := runTemplate(g.pm, g.consts, fd, r, false, hip)
 		if err != nil {
 			return nil, nil, err
 		}
-		if i == 0 {
-			r1 = ts
-		} else {
-			r2 = ts
+		if len(x.lines) != 2 || x.lines[0].buf != ps[3] || x.lines[1].buf != ps[3] || x.lines[0].chain || x.lines[1].chain {
+			return nil, nil, fmt.Errorf("%s: containerPortChainRules no longer writes exactly two rule lines to its buffer", srcPM)
 		}
+		if ref != nil && (!toksEq(ref.lines[0].words, x.lines[0].words) || !toksEq(ref.lines[1].words, x.lines[1].words)) {
+			return nil, nil, fmt.Errorf("%s: containerPortChainRules now depends on the host ip", srcPM)
+		}
+		ref = x
 	}
-	return
+	return ref.lines[0].words, ref.lines[1].words, nil
 }
 
-// writeKubeMarkRule: chain line of KUBE-MARK-MASQ + one literal rule.
+// writeKubeMarkRule(chains, rules): the chain line of KUBE-MARK-MASQ + one literal rule line.
 func (g *gen) markRule() ([]tok, error) {
 	fd, err := g.pm.Fn("", "writeKubeMarkRule")
 	if err != nil {
 		return nil, err
 	}
-	b := fd.Body.List
-	if len(b) != 2 || g.pm.Src(b[0]) != "writeLine(natChains, utiliptables.MakeChainLine(KubeMarkMasqChain))" {
-		return nil, fmt.Errorf("%s: writeKubeMarkRule no longer declares the KUBE-MARK-MASQ chain line first", srcPM)
+	ps := paramNames(fd)
+	if len(ps) != 2 {
+		return nil, fmt.Errorf("%s: writeKubeMarkRule no longer has the parameters (chains, rules)", srcPM)
 	}
-	es, ok := b[1].(*ast.ExprStmt)
-	if !ok {
-		return nil, fmt.Errorf("%s: writeKubeMarkRule: second statement is not a call", srcPM)
+	x, err := runTemplate(g.pm, g.consts, fd, roles{}, false, false)
+	if err != nil {
+		return nil, err
 	}
-	c, ok := es.X.(*ast.CallExpr)
-	if !ok || g.pm.Src(c.Fun) != "writeLine" || len(c.Args) < 3 || g.pm.Src(c.Args[0]) != "natRules" {
-		return nil, fmt.Errorf("%s: writeKubeMarkRule: second statement is not writeLine(natRules, …)", srcPM)
+	var rule []tok
+	decl := false
+	for _, l := range x.lines {
+		switch {
+		case l.chain && l.buf == ps[0] && len(l.words) == 1 && tokEq(l.words[0], tok{{"lit", g.consts["KubeMarkMasqChain"]}}):
+			decl = true
+		case !l.chain && l.buf == ps[1] && rule == nil:
+			rule = l.words
+		default:
+			return nil, fmt.Errorf("%s: writeKubeMarkRule writes something else than the KUBE-MARK-MASQ chain line and one rule", srcPM)
+		}
 	}
-	return g.toks(c.Args[1:], "")
+	if !decl || rule == nil {
+		return nil, fmt.Errorf("%s: writeKubeMarkRule no longer declares the KUBE-MARK-MASQ chain line and one rule", srcPM)
+	}
+	return rule, nil
 }
 
-// EnsureBasicRule: the jump-rule args and the (table, chain) list.
+// EnsureBasicRule: EnsureChain(nat, KUBE-HOSTPORTS); EnsureRule(Append, table, chain, args...) over a literal list
+// of (nat, chain) pairs; the first []string literal of the function is the rule.
 func (g *gen) basicRule() (args []tok, chains []string, err error) {
 	fd, e := g.pm.Fn("PortMappingHandler", "EnsureBasicRule")
 	if e != nil {
@@ -392,57 +168,92 @@ func (g *gen) basicRule() (args []tok, chains []string, err error) {
 	bad := func(why string) error {
 		return fmt.Errorf("%s: EnsureBasicRule no longer has the expected shape (%s)", srcPM, why)
 	}
-	src := g.pm.Src(fd.Body)
-	if !strings.Contains(src, "h.Interface.EnsureChain(utiliptables.TableNAT, kubeHostportsChain)") {
-		return nil, nil, bad("EnsureChain(nat, KUBE-HOSTPORTS) missing")
-	}
-	if !strings.Contains(src, "h.Interface.EnsureRule(utiliptables.Append, tc.table, tc.chain, args...)") {
-		return nil, nil, bad("EnsureRule(Append, tc.table, tc.chain, args...) missing")
-	}
-	for _, s := range fd.Body.List {
-		as, ok := s.(*ast.AssignStmt)
-		if !ok || len(as.Lhs) != 1 || len(as.Rhs) != 1 {
-			continue
+	sc := newScope(g.pm, nil, fd.Body)
+	okChain, okRule := false, false
+	var ruleVar string
+	for _, c := range calls(fd.Body) {
+		if callee(c) == "EnsureChain" && len(c.Args) == 2 && g.pm.Src(c.Args[0]) == "utiliptables.TableNAT" && sc.isIdent(c.Args[1], "kubeHostportsChain") {
+			okChain = true
 		}
-		name := g.pm.Src(as.Lhs[0])
-		if name == "args" && args == nil {
-			es, ok := stringSliceLit(as.Rhs[0])
+		if callee(c) == "EnsureRule" && len(c.Args) == 4 && c.Ellipsis.IsValid() && g.pm.Src(c.Args[0]) == "utiliptables.Append" && !okRule {
+			if id, ok := unparen(c.Args[3]).(*ast.Ident); ok {
+				ruleVar, okRule = id.Name, true
+			}
+		}
+	}
+	if !okChain || !okRule {
+		return nil, nil, bad("EnsureChain(nat, KUBE-HOSTPORTS) / EnsureRule(Append, …, args...) missing")
+	}
+	r := roles{p: g.pm, consts: g.consts, scalars: map[string]ast.Expr{}, slices: map[string][]tok{}}
+	// the first assignment to the rule variable is the portal rule
+	found := false
+	ast.Inspect(fd.Body, func(x ast.Node) bool {
+		as, ok := x.(*ast.AssignStmt)
+		if !ok || found || len(as.Lhs) != 1 || len(as.Rhs) != 1 {
+			return true
+		}
+		if id, ok := as.Lhs[0].(*ast.Ident); !ok || id.Name != ruleVar {
+			return true
+		}
+		cl, ok := unparen(as.Rhs[0]).(*ast.CompositeLit)
+		if !ok || !isStringSlice(cl.Type) {
+			return true
+		}
+		found = true
+		for _, el := range cl.Elts {
+			t, e := r.word(el)
+			if e != nil {
+				err = e
+				return false
+			}
+			args = append(args, t)
+		}
+		return false
+	})
+	if err != nil {
+		return nil, nil, err
+	}
+	// the literal list of {table, chain} pairs
+	ast.Inspect(fd.Body, func(x ast.Node) bool {
+		cl, ok := x.(*ast.CompositeLit)
+		if !ok || len(chains) > 0 {
+			return true
+		}
+		var cs []string
+		for _, el := range cl.Elts {
+			c2, ok := el.(*ast.CompositeLit)
+			if !ok || len(c2.Elts) != 2 {
+				return true
+			}
+			val := func(e ast.Expr) ast.Expr {
+				if kv, ok := e.(*ast.KeyValueExpr); ok {
+					return kv.Value
+				}
+				return e
+			}
+			if g.pm.Src(val(c2.Elts[0])) != "utiliptables.TableNAT" {
+				return true
+			}
+			sel, ok := val(c2.Elts[1]).(*ast.SelectorExpr)
 			if !ok {
-				return nil, nil, bad("args literal")
+				return true
 			}
-			if args, err = g.toks(es, ""); err != nil {
-				return nil, nil, err
+			v, e := g.ipt.ConstString(sel.Sel.Name)
+			if e != nil {
+				return true
 			}
+			cs = append(cs, v)
 		}
-		if name == "tableChainsNeedJumpServices" {
-			cl, ok := as.Rhs[0].(*ast.CompositeLit)
-			if !ok {
-				return nil, nil, bad("table/chain list")
-			}
-			for _, el := range cl.Elts {
-				c2, ok := el.(*ast.CompositeLit)
-				if !ok || len(c2.Elts) != 2 || g.pm.Src(c2.Elts[0]) != "utiliptables.TableNAT" {
-					return nil, nil, bad("table/chain element")
-				}
-				sel, ok := c2.Elts[1].(*ast.SelectorExpr)
-				if !ok {
-					return nil, nil, bad("chain selector")
-				}
-				v, err := g.ipt.ConstString(sel.Sel.Name)
-				if err != nil {
-					return nil, nil, err
-				}
-				chains = append(chains, v)
-			}
-		}
-	}
+		chains = cs
+		return true
+	})
 	if args == nil || len(chains) == 0 {
-		return nil, nil, bad("args / chain list not found")
+		return nil, nil, bad("portal rule / chain list not found")
 	}
 	return
 }
 
-// hostportChainName: hash input fields, hash, encoding, truncation.
+// hostportChainName: hash input fields, hash, encoding, truncation — read through single-assignment locals.
 func (g *gen) hashShape() (fields []string, trunc int, err error) {
 	fd, e := g.pm.Fn("", "hostportChainName")
 	if e != nil {
@@ -451,75 +262,101 @@ func (g *gen) hashShape() (fields []string, trunc int, err error) {
 	bad := func(why string) error {
 		return fmt.Errorf("%s: hostportChainName no longer has the expected shape (%s)", srcPM, why)
 	}
-	b := fd.Body.List
-	if len(b) != 3 || fd.Type.Params.NumFields() != 2 {
-		return nil, 0, bad("3 statements, 2 parameters expected")
+	ps := paramNames(fd)
+	if len(ps) != 2 {
+		return nil, 0, bad("2 parameters expected")
 	}
-	pv := fd.Type.Params.List[0].Names[0].Name
-	nameVar := fd.Type.Params.List[1].Names[0].Name
-	as, ok := b[0].(*ast.AssignStmt)
-	if !ok || len(as.Rhs) != 1 {
-		return nil, 0, bad("hash assignment")
+	sc := newScope(g.pm, nil, fd.Body)
+	var ret *ast.ReturnStmt
+	for _, s := range fd.Body.List {
+		if r, ok := s.(*ast.ReturnStmt); ok {
+			ret = r
+		}
 	}
-	c, ok := as.Rhs[0].(*ast.CallExpr)
-	if !ok || g.pm.Src(c.Fun) != "sha256.Sum256" || len(c.Args) != 1 {
+	if ret == nil || len(ret.Results) != 1 {
+		return nil, 0, bad("single return expected")
+	}
+	conv, ok := sc.resolve(ret.Results[0]).(*ast.CallExpr)
+	if !ok || len(conv.Args) != 1 || !strings.HasSuffix(g.pm.Src(conv.Fun), "Chain") {
+		return nil, 0, bad("return is not Chain(…)")
+	}
+	sum, ok := sc.resolve(conv.Args[0]).(*ast.BinaryExpr)
+	if !ok || sum.Op != token.ADD || !sc.isIdent(sum.X, "kubeHostportChainPrefix") {
+		return nil, 0, bad("name is not prefix + …")
+	}
+	sl, ok := sc.resolve(sum.Y).(*ast.SliceExpr)
+	if !ok || sl.Low != nil || sl.High == nil || sl.Slice3 {
+		return nil, 0, bad("name is not prefix + encoded[:N]")
+	}
+	n, e2 := strconv.Atoi(g.pm.Src(sl.High))
+	if e2 != nil {
+		return nil, 0, bad("truncation length")
+	}
+	enc, ok := sc.resolve(sl.X).(*ast.CallExpr)
+	if !ok || g.pm.Src(enc.Fun) != "base32.StdEncoding.EncodeToString" || len(enc.Args) != 1 {
+		return nil, 0, bad("encoding is not base32.StdEncoding.EncodeToString")
+	}
+	whole, ok := unparen(enc.Args[0]).(*ast.SliceExpr)
+	if !ok || whole.Low != nil || whole.High != nil {
+		return nil, 0, bad("not the whole hash is encoded")
+	}
+	h, ok := sc.resolve(whole.X).(*ast.CallExpr)
+	if !ok || g.pm.Src(h.Fun) != "sha256.Sum256" || len(h.Args) != 1 {
 		return nil, 0, bad("hash is not sha256.Sum256(…)")
 	}
-	conv, ok := c.Args[0].(*ast.CallExpr)
-	if !ok || g.pm.Src(conv.Fun) != "[]byte" || len(conv.Args) != 1 {
+	bconv, ok := sc.resolve(h.Args[0]).(*ast.CallExpr)
+	if !ok || g.pm.Src(bconv.Fun) != "[]byte" || len(bconv.Args) != 1 {
 		return nil, 0, bad("hash input is not []byte(…)")
 	}
+	// the input as a word: pieces must be whole port fields, the pod-name parameter counts as PodName
+	r := roles{p: g.pm, consts: map[string]string{}, port: ps[0], scalars: map[string]ast.Expr{}, slices: map[string][]tok{}}
+	for n, d := range sc.defs {
+		r.scalars[n] = d
+	}
+	r.scalars[ps[1]] = &ast.SelectorExpr{X: ast.NewIdent(ps[0]), Sel: ast.NewIdent("PodName")}
+	// Protocol is not a rule-word field: map it by hand
 	var flat func(e ast.Expr) error
 	flat = func(e ast.Expr) error {
+		e = sc.resolve(e)
 		if be, ok := e.(*ast.BinaryExpr); ok && be.Op == token.ADD {
 			if err := flat(be.X); err != nil {
 				return err
 			}
 			return flat(be.Y)
 		}
-		s := g.pm.Src(e)
-		switch s {
-		case "strconv.Itoa(int(" + pv + ".HostPort))":
-			fields = append(fields, "hostPort")
-		case "strconv.Itoa(int(" + pv + ".ContainerPort))":
-			fields = append(fields, "containerPort")
-		case pv + ".Protocol":
+		if sel, ok := e.(*ast.SelectorExpr); ok && g.pm.Src(sel.X) == ps[0] && sel.Sel.Name == "Protocol" {
 			fields = append(fields, "protocol")
-		case nameVar, pv + ".PodName":
-			fields = append(fields, "podName")
-		default:
-			return bad("hash input operand `" + s + "`")
+			return nil
+		}
+		t, err := r.word(e)
+		if err != nil {
+			return bad("hash input operand `" + g.pm.Src(e) + "`")
+		}
+		for _, p := range t {
+			switch p.kind {
+			case "hostPort", "containerPort", "podName":
+				fields = append(fields, p.kind)
+			default:
+				return bad("hash input operand `" + g.pm.Src(e) + "`")
+			}
 		}
 		return nil
 	}
-	if err := flat(conv.Args[0]); err != nil {
+	if err := flat(bconv.Args[0]); err != nil {
 		return nil, 0, err
 	}
-	if g.pm.Src(b[1]) != "encoded := base32.StdEncoding.EncodeToString(hash[:])" {
-		return nil, 0, bad("encoding is not base32.StdEncoding of the whole hash")
-	}
-	ret := g.pm.Src(b[2])
-	const pre = "return utiliptables.Chain(kubeHostportChainPrefix + encoded[:"
-	if !strings.HasPrefix(ret, pre) || !strings.HasSuffix(ret, "])") {
-		return nil, 0, bad("return is not Chain(prefix + encoded[:N])")
-	}
-	n, e2 := strconv.Atoi(ret[len(pre) : len(ret)-2])
-	if e2 != nil {
-		return nil, 0, bad("truncation length")
-	}
 	// every call site must pass the port's own PodName as the second argument
-	calls := 0
-	okCalls := true
+	nCalls, okCalls := 0, true
 	ast.Inspect(g.pm.File, func(x ast.Node) bool {
-		if c, ok := x.(*ast.CallExpr); ok && g.pm.Src(c.Fun) == "hostportChainName" {
-			calls++
+		if c, ok := x.(*ast.CallExpr); ok && callee(c) == "hostportChainName" {
+			nCalls++
 			if len(c.Args) != 2 || g.pm.Src(c.Args[1]) != g.pm.Src(c.Args[0])+".PodName" {
 				okCalls = false
 			}
 		}
 		return true
 	})
-	if calls == 0 || !okCalls {
+	if nCalls == 0 || !okCalls {
 		return nil, 0, bad("a call site does not pass <port>.PodName as the pod name")
 	}
 	return fields, n, nil
@@ -549,218 +386,6 @@ func (g *gen) chainLine() (pre, suf string, err error) {
 	return parts[0], parts[1], nil
 }
 
-// ---- shape facts of the three generators ----------------------------------------------------
-
-type facts map[string]bool
-
-func firstFor(fd *ast.FuncDecl) *ast.RangeStmt {
-	for _, s := range fd.Body.List {
-		if r, ok := s.(*ast.RangeStmt); ok {
-			return r
-		}
-	}
-	return nil
-}
-
-// rangeOver finds the top-level `for … := range <expr>` statement and its index.
-func (g *gen) rangeOver(fd *ast.FuncDecl, expr string, nth int) (*ast.RangeStmt, int) {
-	k := 0
-	for i, s := range fd.Body.List {
-		if r, ok := s.(*ast.RangeStmt); ok && g.pm.Src(r.X) == expr {
-			if k == nth {
-				return r, i
-			}
-			k++
-		}
-	}
-	return nil, -1
-}
-
-func (g *gen) genFacts() (facts, error) {
-	f := facts{}
-	has := func(n ast.Node, sub string) bool { return n != nil && strings.Contains(g.pm.Src(n), sub) }
-	const lower = "protocol := strings.ToLower(containerPort.Protocol)"
-	const nameOf = "hostportChain := hostportChainName(containerPort, containerPort.PodName)"
-	const declLine = "writeLine(natChains, utiliptables.MakeChainLine(hostportChain))"
-
-	// --- SetupPortMapping
-	fd, err := g.pm.Fn("PortMappingHandler", "SetupPortMapping")
-	if err != nil {
-		return nil, err
-	}
-	loop, li := g.rangeOver(fd, "ports", 0)
-	if loop == nil {
-		return nil, fmt.Errorf("%s: SetupPortMapping: loop over ports not found", srcPM)
-	}
-	markIdx := g.pm.StmtIndex(fd.Body, "writeKubeMarkRule(natChains, natRules)")
-	restIdx := g.pm.StmtIndex(fd.Body, "h.RestoreAll(natLines, utiliptables.NoFlushTables, utiliptables.RestoreCounters)")
-	ens, ei := g.rangeOver(fd, "kubeHostportsChainRules", 0)
-	f["setupWritesMark"] = markIdx >= 0 && markIdx < li
-	f["setupLowersProto"] = has(loop.Body, lower)
-	f["setupNamesChain"] = has(loop.Body, nameOf)
-	f["setupDeclaresChain"] = has(loop.Body, declLine)
-	f["setupWritesHpRules"] = has(loop.Body, "containerPortChainRules(&containerPort, protocol, hostportChain, natRules)")
-	f["setupCollectsJumpRules"] = has(loop.Body, "hostPortChainRules(&containerPort, protocol, hostportChain, false)")
-	f["setupRestoreNoFlush"] = restIdx > li
-	f["setupEnsuresJumpRulesAfterRestore"] = ens != nil && restIdx >= 0 && ei > restIdx &&
-		has(ens.Body, "h.EnsureRule(utiliptables.Append, utiliptables.TableNAT, kubeHostportsChain, rule...)")
-	f["setupChainsBeforeRules"] = has(fd.Body, "natLines := append(natChains.Bytes(), natRules.Bytes()...)")
-
-	// --- CleanPortMapping
-	fd, err = g.pm.Fn("PortMappingHandler", "CleanPortMapping")
-	if err != nil {
-		return nil, err
-	}
-	loop, li = g.rangeOver(fd, "ports", 0)
-	if loop == nil {
-		return nil, fmt.Errorf("%s: CleanPortMapping: loop over ports not found", srcPM)
-	}
-	del, di := g.rangeOver(fd, "kubeHostportsChainRules", 0)
-	restIdx = g.pm.StmtIndex(fd.Body, "h.RestoreAll(natLines, utiliptables.NoFlushTables, utiliptables.RestoreCounters)")
-	f["cleanWritesMark"] = has(fd.Body, "writeKubeMarkRule(")
-	f["cleanLowersProto"] = has(loop.Body, lower)
-	f["cleanNamesChain"] = has(loop.Body, nameOf)
-	f["cleanDeclaresChain"] = has(loop.Body, declLine)
-	f["cleanDeletesChain"] = has(loop.Body, `writeLine(natRules, "-X", string(hostportChain))`)
-	f["cleanCollectsJumpRules"] = has(loop.Body, "hostPortChainRules(&containerPort, protocol, hostportChain, false)")
-	f["cleanDeletesJumpRulesBeforeRestore"] = del != nil && di > li && restIdx > di &&
-		has(del.Body, "h.DeleteRule(utiliptables.TableNAT, kubeHostportsChain, rule...)")
-	f["cleanRestores"] = restIdx >= 0
-	// since a5e6428: a second loop over the ports makes sure every chain exists before the DeleteRule loop
-	ens2, e2i := g.rangeOver(fd, "ports", 1)
-	f["cleanEnsuresChainsFirst"] = ens2 != nil && del != nil && e2i > li && e2i < di && has(ens2.Body, nameOf) &&
-		has(ens2.Body, "h.EnsureChain(utiliptables.TableNAT, hostportChain)") && has(ens2.Body, "return err")
-	f["cleanChainsBeforeRules"] = has(fd.Body, "natLines := append(natChains.Bytes(), natRules.Bytes()...)")
-
-	// --- SetupPortMappingForAllPods
-	fd, err = g.pm.Fn("PortMappingHandler", "SetupPortMappingForAllPods")
-	if err != nil {
-		return nil, err
-	}
-	loop, li = g.rangeOver(fd, "ports", 0)
-	if loop == nil {
-		return nil, fmt.Errorf("%s: SetupPortMappingForAllPods: loop over ports not found", srcPM)
-	}
-	stale, si := g.rangeOver(fd, "existingNATChains", 0)
-	restIdx = g.pm.StmtIndex(fd.Body, "h.Interface.RestoreAll(natLines, utiliptables.NoFlushTables, utiliptables.RestoreCounters)")
-	first := ""
-	if len(fd.Body.List) > 0 {
-		first = g.pm.Src(fd.Body.List[0])
-	}
-	f["syncEnsuresBasicFirst"] = strings.HasPrefix(first, "if err := h.EnsureBasicRule(); err != nil {") &&
-		strings.Contains(first, "return err")
-	f["syncReadsExisting"] = has(fd.Body, "existingNATChains = utiliptables.GetChainLines(utiliptables.TableNAT, iptablesSaveRaw.Bytes())") &&
-		has(fd.Body, "h.Interface.SaveInto(utiliptables.TableNAT, iptablesSaveRaw)")
-	markIdx = g.pm.StmtIndex(fd.Body, "writeKubeMarkRule(natChains, natRules)")
-	f["syncWritesMark"] = markIdx >= 0 && markIdx < li
-	hpDecl := g.pm.StmtIndex(fd.Body, "existingNATChains[kubeHostportsChain]")
-	f["syncDeclaresHostports"] = hpDecl >= 0 && hpDecl < li &&
-		has(fd.Body.List[hpDecl], "writeLine(natChains, chain)") &&
-		has(fd.Body.List[hpDecl], "writeLine(natChains, utiliptables.MakeChainLine(kubeHostportsChain))")
-	f["syncLowersProto"] = has(loop.Body, lower)
-	f["syncNamesChain"] = has(loop.Body, nameOf)
-	f["syncDeclaresChain"] = has(loop.Body, "existingNATChains[hostportChain]") && has(loop.Body, "writeLine(natChains, chain)") &&
-		has(loop.Body, declLine)
-	f["syncMarksActive"] = has(loop.Body, "activeNATChains[hostportChain] = true")
-	f["syncWritesJumpRule"] = has(loop.Body, "writeLine(natRules, hostPortChainRules(&containerPort, protocol, hostportChain, true)...)")
-	f["syncWritesHpRules"] = has(loop.Body, "containerPortChainRules(&containerPort, protocol, hostportChain, natRules)")
-	f["syncStaleLoopAfterPorts"] = stale != nil && si > li && restIdx > si
-	f["syncStaleSkipsActive"] = stale != nil && has(stale.Body, "if !activeNATChains[chain] {")
-	f["syncStalePrefixGuard"] = stale != nil && has(stale.Body, "if !strings.HasPrefix(chainString, kubeHostportChainPrefix) {") &&
-		has(stale.Body, "continue")
-	f["syncStaleDeclares"] = stale != nil && has(stale.Body, "writeLine(natChains, existingNATChains[chain])")
-	f["syncStaleDeletes"] = stale != nil && has(stale.Body, `writeLine(natRules, "-X", chainString)`)
-	f["syncRestoreNoFlush"] = restIdx >= 0
-	f["syncChainsBeforeRules"] = has(fd.Body, "natLines := append(natChains.Bytes(), natRules.Bytes()...)")
-	_ = firstFor
-	return f, nil
-}
-
-// ---- pkg/galaxy/server.go: the per-pod protocol around the port file ---------------------------------------
-
-func serverFacts(repo string) (facts, error) {
-	sp, err := fg.ParseFile(repo, srcSrv)
-	if err != nil {
-		return nil, err
-	}
-	f := facts{}
-	has := func(n ast.Node, sub string) bool { return n != nil && strings.Contains(sp.Src(n), sub) }
-	// setupPortMapping: OpenHostports, SavePort, SetupPortMapping as top-level statements
-	fd, err := sp.Fn("Galaxy", "setupPortMapping")
-	if err != nil {
-		return nil, err
-	}
-	open := sp.StmtIndex(fd.Body, "g.pmhandler.OpenHostports(")
-	save := sp.StmtIndex(fd.Body, "k8s.SavePort(containerID, data)")
-	setup := sp.StmtIndex(fd.Body, "g.pmhandler.SetupPortMapping(req.Ports)")
-	if open < 0 || save < 0 || setup < 0 {
-		return nil, fmt.Errorf("%s: setupPortMapping no longer calls OpenHostports / k8s.SavePort(containerID, data) / SetupPortMapping(req.Ports) at top level", srcSrv)
-	}
-	f["portFileSavedBeforeSetup"] = save < setup && has(fd.Body.List[save], "return")
-	f["hostportsOpenedBeforeSave"] = open < save
-	// requestFunc: ADD failure runs cleanupPortMapping; DEL runs it after CmdDel succeeded
-	fd, err = sp.Fn("Galaxy", "requestFunc")
-	if err != nil {
-		return nil, err
-	}
-	addCleans, delCleans := false, false
-	ast.Inspect(fd.Body, func(n ast.Node) bool {
-		b, ok := n.(*ast.BlockStmt)
-		if !ok {
-			return true
-		}
-		for i := 0; i+1 < len(b.List); i++ {
-			ifs, ok := b.List[i+1].(*ast.IfStmt)
-			if !ok {
-				continue
-			}
-			first := sp.Src(b.List[i])
-			if strings.HasPrefix(first, "err = g.setupPortMapping(req, req.ContainerID,") && sp.Src(ifs.Cond) == "err != nil" &&
-				len(ifs.Body.List) > 0 && sp.Src(ifs.Body.List[0]) == "g.cleanupPortMapping(req)" {
-				addCleans = true
-			}
-			if strings.HasPrefix(first, "err = cniutil.CmdDel(") && sp.Src(ifs.Cond) == "err == nil" &&
-				len(ifs.Body.List) == 1 && sp.Src(ifs.Body.List[0]) == "err = g.cleanupPortMapping(req)" {
-				delCleans = true
-			}
-		}
-		return true
-	})
-	f["addFailureRunsCleanup"] = addCleans
-	f["delRunsCleanup"] = delCleans
-	fd, err = sp.Fn("Galaxy", "cleanupPortMapping")
-	if err != nil {
-		return nil, err
-	}
-	f["cleanupClosesHostports"] = len(fd.Body.List) == 2 && has(fd.Body.List[0], "g.pmhandler.CloseHostports(") &&
-		sp.Src(fd.Body.List[1]) == "return g.cleanIPtables(req.ContainerID)"
-	fd, err = sp.Fn("Galaxy", "cleanIPtables")
-	if err != nil {
-		return nil, err
-	}
-	cons := sp.StmtIndex(fd.Body, "k8s.ConsumePort(containerID)")
-	if cons < 0 {
-		return nil, fmt.Errorf("%s: cleanIPtables no longer reads the port file with k8s.ConsumePort(containerID)", srcSrv)
-	}
-	f["cleanupMissingFileIsNoop"] = cons+1 < len(fd.Body.List) && has(fd.Body.List[cons+1], "os.IsNotExist(err)") &&
-		has(fd.Body.List[cons+1], "return nil")
-	var guard *ast.IfStmt
-	for _, st := range fd.Body.List {
-		if ifs, ok := st.(*ast.IfStmt); ok && sp.Src(ifs.Cond) == "len(ports) != 0" {
-			guard = ifs
-		}
-	}
-	f["cleanupSkipsEmptyRecord"] = guard != nil
-	if guard != nil {
-		c := sp.StmtIndex(guard.Body, "g.pmhandler.CleanPortMapping(ports)")
-		r := sp.StmtIndex(guard.Body, "k8s.RemovePortFile(containerID)")
-		f["cleanupRemovesFileAfterClean"] = c >= 0 && r > c && has(guard.Body.List[c], "return err")
-	} else {
-		f["cleanupRemovesFileAfterClean"] = false
-	}
-	return f, nil
-}
-
 // ---- main -------------------------------------------------------------------------------------
 
 func generate(repo string) (map[string]string, error) {
@@ -773,6 +398,9 @@ func generate(repo string) (map[string]string, error) {
 		return nil, err
 	}
 	if g.save, err = fg.ParseFile(repo, srcSave); err != nil {
+		return nil, err
+	}
+	if g.srv, err = fg.ParseFile(repo, srcSrv); err != nil {
 		return nil, err
 	}
 	for _, n := range []string{"kubeHostportsChain", "kubeHostportChainPrefix", "KubeMarkMasqChain"} {
@@ -818,11 +446,11 @@ func generate(repo string) (map[string]string, error) {
 	if err != nil {
 		return nil, err
 	}
-	fs, err := g.genFacts()
+	fs, err := genFacts(g.pm)
 	if err != nil {
 		return nil, err
 	}
-	sf, err := serverFacts(repo)
+	sf, err := serverFactsOf(g.srv)
 	if err != nil {
 		return nil, err
 	}
